@@ -1104,6 +1104,8 @@ def _getitem(a, key):
             maps.append(("fix", k))
         elif isinstance(k, (SZ, SVal)) or isz(k):
             maps.append(("fix", Z(k)))
+        elif isinstance(k, slice) and k.step == -1 and k.start is None and k.stop is None:
+            maps.append(("map", d, (lambda d: lambda i: zdim(d) - 1 - i)(d)))  # a[::-1]
         elif isinstance(k, slice):
             if k.step not in (None, 1):
                 raise Unsupported("E3: slice step")
@@ -1741,8 +1743,15 @@ class Sym:
         budget = timeout_ms or CTX.timeout
         if s.unknowns >= 4 or s.refuted:
             budget = min(budget, 1000 if s.refuted else 1500)  # changed code that leaves many queries open / is already refuted: do not burn the wall clock
-        s.vk.ensures_smt(clause, claim, list(CTX.assumptions) + pre + [Z(h) for h in hints], timeout_ms=budget)
+        hyp = list(CTX.assumptions) + pre + [Z(h) for h in hints]
+        s.vk.ensures_smt(clause, claim, hyp, timeout_ms=budget)
         o = s.vk.obl[-1]
+        if o["status"] == "undecided" and s.unknowns < 4 and not s.refuted and not clause.startswith("canary/"):
+            # `unknown` within the first budget (machine load?): one retry with a four times larger budget
+            del s.vk.obl[-1]
+            s.vk.ensures_smt(clause, claim, hyp, timeout_ms=4 * budget)
+            o = s.vk.obl[-1]
+            o["detail"] = (o["detail"] + " (second attempt)").strip()
         s.unknowns += o["status"] == "undecided"
         s.refuted += o["status"] == "refuted" and not clause.startswith("canary/")
         o["family"] = f"{s.vk.prefix}/{clause.split('[')[0]}"
@@ -1920,6 +1929,8 @@ def paired(vk, body, cfg, native_runs=5):
         # other exceptions: the executed code raised under the stand-in (numpy-like IndexError, ValueError ...)
         aborted = {"name": f"{vk.prefix}/run", "status": "undecided", "backend": "E3", "seconds": 0, "detail": f"symbolic run stopped: {type(e).__name__}: {e} | " + traceback.format_exc(limit=6)[-700:], "family": f"{vk.prefix}/run"}
         vk.obl.append(aborted)
+    if aborted is None:
+        vk.obl.append({"name": f"{vk.prefix}/run", "status": "discharged", "backend": "E3", "seconds": 0, "detail": "the real code ran to completion on the index-map arrays (no exception, no undecided branch)", "family": f"{vk.prefix}/run"})
     try:
         E.cover()
     except Exception:
@@ -2026,6 +2037,8 @@ def selftest(seed=0):
             cmp("tile(1,r,1)", _tile(a, (1, 3, 1)), _np.tile(A, (1, 3, 1)))
             cmp("a[:, 1:]", a[:, 1:], A[:, 1:])
             cmp("a[0]", a[0], A[0])
+            cmp("a[::-1]", a[::-1], A[::-1])
+            cmp("a[:, ::-1]", a[:, ::-1], A[:, ::-1])
         for r in (1, 2, 3):
             cmp("repeat", _repeat(a, r), _np.repeat(A, r))
             cmp("tile-int", _tile(a, r), _np.tile(A, r))
